@@ -687,3 +687,512 @@ Proof.
   exact (frep_solves (f_dim r) B (spike r) (bpost r) (usolve r) (usolve_t r) (Ucf r)
            (spike_lin r SF) (usolve_spec r SF) (usolve_t_spec_c r SF) F).
 Qed.
+
+(* ================================================================================================= eliminate_row *)
+(* one rank of the elimination, both branches: new work vector, new multiplier list *)
+Lemma elim_step_spec n Ue (w : vec) (eta : sparse) c r : (c < n)%nat -> ~ Ue r c == 0 ->
+  let st := elim_step n Ue (w, eta) (c, r) in
+  exists mul,
+    (forall j, (j < n)%nat -> qnth (fst st) j == if Nat.eqb j c then 0 else qnth w j - mul * Ue r j) /\
+    (forall i, coefAt (snd st) i == (if Nat.eqb r i then mul else 0) + coefAt eta i) /\
+    mul * Ue r c == qnth w c /\
+    (ind_lt n eta = true -> (r < n)%nat -> ind_lt n (snd st) = true).
+Proof.
+  intros Hc Hp. unfold elim_step. cbn [fst snd]. destruct (Qeq_bool (qnth w c) 0) eqn:E.
+  - apply Qeq_bool_iff in E. exists 0. cbn [fst snd]. split; [|split; [|split]].
+    + intros j Hj. rewrite qnth_vset by exact Hj. destruct (Nat.eqb j c); [reflexivity|ring].
+    + intros i. destruct (Nat.eqb r i); ring.
+    + rewrite E. ring.
+    + intros H _. exact H.
+  - exists (qnth w c / Ue r c). cbn [fst snd]. split; [|split; [|split]].
+    + intros j Hj. rewrite qnth_mkvec by exact Hj. destruct (Nat.eqb j c); [reflexivity|]. rarith. reflexivity.
+    + intros i. rewrite coefAt_app. cbn [coefAt]. destruct (Nat.eqb r i); rarith; ring.
+    + field. exact Hp.
+    + intros H Hr. unfold ind_lt in *. rewrite forallb_app, H. cbn [forallb fst]. rewrite andb_true_r. apply Nat.ltb_lt. exact Hr.
+Qed.
+
+(* every row used vanishes on the columns eliminated before it *)
+Fixpoint elimP (Ue : nat -> nat -> Q) (done : list nat) (crs : list (nat * nat)) : Prop :=
+  match crs with
+  | [] => True
+  | cr :: t => (forall d, In d done -> Ue (snd cr) d == 0) /\ elimP Ue (fst cr :: done) t
+  end.
+
+Lemma elim_fold_spec n Ue : forall crs done (w0 : vec) (eta0 : sparse),
+  (forall cr, In cr crs -> (fst cr < n)%nat /\ (snd cr < n)%nat /\ ~ Ue (snd cr) (fst cr) == 0) ->
+  elimP Ue done crs ->
+  (forall d, In d done -> (d < n)%nat /\ qnth w0 d == 0) ->
+  ind_lt n eta0 = true ->
+  let st := fold_left (elim_step n Ue) crs (w0, eta0) in
+  (forall j, (j < n)%nat ->
+     qnth (fst st) j + sumn n (fun i => coefAt (snd st) i * Ue i j) ==
+     qnth w0 j + sumn n (fun i => coefAt eta0 i * Ue i j)) /\
+  (forall d, In d done \/ In d (map fst crs) -> qnth (fst st) d == 0) /\
+  (forall i, (forall cr, In cr crs -> snd cr <> i) -> coefAt (snd st) i == coefAt eta0 i) /\
+  ind_lt n (snd st) = true.
+Proof.
+  induction crs as [|[c r] crs IH]; intros done w0 eta0 W T D I0; cbn [fold_left].
+  - cbn [fst snd]. split; [intros; reflexivity|]. split; [|split; [intros; reflexivity|exact I0]].
+    intros d [Hd|[]]. apply D. exact Hd.
+  - cbn [elimP fst snd] in T. destruct T as [Tz T].
+    destruct (W (c, r) (or_introl eq_refl)) as (Wc & Wr & Wp). cbn [fst snd] in Wc, Wr, Wp.
+    pose proof (elim_step_spec n Ue w0 eta0 c r Wc Wp) as S. cbv zeta in S.
+    remember (elim_step n Ue (w0, eta0) (c, r)) as st1 eqn:Est in *. clear Est. destruct st1 as [w1 eta1].
+    cbn [fst snd] in S. destruct S as (mul & S1 & S2 & S3 & S4).
+    assert (D1 : forall d, In d (c :: done) -> (d < n)%nat /\ qnth w1 d == 0).
+    { intros d Hd. assert (Hdn : (d < n)%nat) by (destruct Hd as [<-|Hd]; [exact Wc|apply D; exact Hd]).
+      split; [exact Hdn|]. rewrite (S1 d Hdn). destruct (Nat.eqb_spec d c) as [E|NE]; [reflexivity|].
+      destruct Hd as [E|Hd]; [congruence|]. rewrite (proj2 (D d Hd)). rewrite (Tz d Hd). ring. }
+    specialize (IH (c :: done) w1 eta1 (fun cr H => W cr (or_intror H)) T D1 (S4 I0 Wr)). cbv zeta in IH.
+    destruct IH as (R & Z & K & I1). split; [|split; [|split]].
+    + intros j Hj. rewrite (R j Hj).
+      transitivity (qnth w1 j + (mul * Ue r j + sumn n (fun i => coefAt eta0 i * Ue i j))).
+      * apply Qplus_comp; [reflexivity|].
+        transitivity (sumn n (fun i => ((if Nat.eqb r i then mul else 0) + coefAt eta0 i) * Ue i j)).
+        -- apply sumn_ext. intros i _. rewrite (S2 i). reflexivity.
+        -- apply (sumn_pick n r mul (fun i => Ue i j) (coefAt eta0)). exact Wr.
+      * rewrite (S1 j Hj). destruct (Nat.eqb_spec j c) as [E|NE].
+        -- subst j. rewrite S3. ring.
+        -- ring.
+    + intros d [Hd|Hd].
+      * apply Z. left. right. exact Hd.
+      * cbn [map fst] in Hd. destruct Hd as [<-|Hd]; [apply Z; left; left; reflexivity|apply Z; right; exact Hd].
+    + intros i Hi. rewrite (K i (fun cr H => Hi cr (or_intror H))). rewrite (S2 i).
+      destruct (Nat.eqb_spec r i) as [E|_]; [|ring]. exfalso. exact (Hi (c, r) (or_introl eq_refl) E).
+    + exact I1.
+Qed.
+
+(* ================================================================================================= the update *)
+Lemma fold_max_lt (rperm : list nat) n (s : sparse) : forall m0, (m0 < n)%nat ->
+  (forall e, In e s -> (index_of (fst e) rperm < n)%nat) ->
+  (fold_left (fun m (e : nat * Q) => Nat.max m (index_of (fst e) rperm)) s m0 < n)%nat.
+Proof.
+  induction s as [|e s IH]; intros m0 H0 H; simpl; [exact H0|].
+  apply IH; [|intros e' He'; apply H; right; exact He'].
+  pose proof (H e (or_introl eq_refl)). lia.
+Qed.
+
+Section Update.
+  Variable r : repr.
+  Variable col_p : nat.
+  Variable s : sparse.
+  Hypothesis SF : sfacts r.
+  Local Notation n := (f_dim r).
+  Hypothesis Hcol : (col_p < n)%nat.
+  Hypothesis Hs : ind_lt n s = true.
+  Local Notation p := (index_of col_p (f_cperm r)).
+  Local Notation q := (spike_rank (f_rperm r) s).
+  Local Notation row_p := (rk r p).
+  Hypothesis Hpq : (p <= q)%nat.
+
+  Local Notation Ut := (up_Ut r col_p s).
+  Local Notation Ue := (up_Ue r col_p s row_p).
+  Local Notation w := (fst (up_elim r col_p s row_p p q)).
+  Local Notation eta := (snd (up_elim r col_p s row_p p q)).
+  Local Notation U' := (up_U r col_p s row_p p q).
+  Local Notation r' := (up_repr r col_p s row_p p q).
+  Local Notation sg := (sigma p q).
+
+  Lemma p_lt : (p < n)%nat. Proof. exact (proj1 (ck_surj r SF col_p Hcol)). Qed.
+  Lemma ck_p : ck r p = col_p. Proof. exact (proj2 (ck_surj r SF col_p Hcol)). Qed.
+  Lemma q_lt : (q < n)%nat.
+  Proof.
+    unfold spike_rank. apply fold_max_lt; [pose proof p_lt; lia|].
+    intros e He. unfold ind_lt in Hs. rewrite forallb_forall in Hs. specialize (Hs e He). apply Nat.ltb_lt in Hs.
+    exact (proj1 (rk_surj r SF (fst e) Hs)).
+  Qed.
+  Lemma row_p_lt : (row_p < n)%nat. Proof. apply rk_lt; [exact SF|exact p_lt]. Qed.
+
+  Lemma update_spike_unfold :
+    update_spike r col_p s = if Qeq_bool (qnth w col_p) 0 then None else Some r'.
+  Proof.
+    unfold update_spike. destruct (U_head r SF p p_lt) as (piv & rest & E). rewrite ck_p in E. rewrite E.
+    cbv zeta. destruct (Nat.ltb_spec q p); [lia|]. reflexivity.
+  Qed.
+
+  (* the new permutations *)
+  Lemma rk'_eq k : (k < n)%nat -> nth k (shift (f_rperm r) p q) 0%nat = rk r (sg k).
+  Proof. intros Hk. rewrite shift_nth by (rewrite (sf_rlen r SF); exact Hk). reflexivity. Qed.
+  Lemma ck'_eq k : (k < n)%nat -> nth k (shift (f_cperm r) p q) 0%nat = ck r (sg k).
+  Proof. intros Hk. rewrite shift_nth by (rewrite (sf_clen r SF); exact Hk). reflexivity. Qed.
+  Lemma sg_lt k : (k < n)%nat -> (sg k < n)%nat.
+  Proof. intros Hk. apply sigma_lt; [exact Hpq|exact q_lt|exact Hk]. Qed.
+
+  Lemma cperm'_ok : perm_ok n (shift (f_cperm r) p q) = true.
+  Proof.
+    apply perm_ok_intro; [rewrite shift_length; exact (sf_clen r SF)|].
+    apply (shift_perm n); [exact Hpq|exact q_lt|exact (sf_clen r SF)|exact (sf_ccov r SF)].
+  Qed.
+  Lemma rperm'_ok : perm_ok n (shift (f_rperm r) p q) = true.
+  Proof.
+    apply perm_ok_intro; [rewrite shift_length; exact (sf_rlen r SF)|].
+    apply (shift_perm n); [exact Hpq|exact q_lt|exact (sf_rlen r SF)|exact (sf_rcov r SF)].
+  Qed.
+  Lemma ck'_index k : (k < n)%nat -> index_of (ck r (sg k)) (shift (f_cperm r) p q) = k.
+  Proof.
+    intros Hk. rewrite <- ck'_eq by exact Hk. destruct (perm_ok_spec n _ cperm'_ok) as (L & _ & ND).
+    apply index_of_nth; [exact ND|rewrite L; exact Hk].
+  Qed.
+  Lemma rk'_index k : (k < n)%nat -> index_of (rk r (sg k)) (shift (f_rperm r) p q) = k.
+  Proof.
+    intros Hk. rewrite <- rk'_eq by exact Hk. destruct (perm_ok_spec n _ rperm'_ok) as (L & _ & ND).
+    apply index_of_nth; [exact ND|rewrite L; exact Hk].
+  Qed.
+  (* every column / row has a new rank *)
+  Lemma col_rank' j : (j < n)%nat -> exists k, (k < n)%nat /\ j = ck r (sg k).
+  Proof.
+    intros Hj. destruct (ck_surj r SF j Hj) as [A B].
+    destruct (sigma_surj p q n _ Hpq q_lt A) as (k & Hk & E). exists k. split; [exact Hk|]. rewrite E. symmetry. exact B.
+  Qed.
+  Lemma row_rank' i : (i < n)%nat -> exists k, (k < n)%nat /\ i = rk r (sg k).
+  Proof.
+    intros Hi. destruct (rk_surj r SF i Hi) as [A B].
+    destruct (sigma_surj p q n _ Hpq q_lt A) as (k & Hk & E). exists k. split; [exact Hk|]. rewrite E. symmetry. exact B.
+  Qed.
+
+  (* ---- the rows used by the elimination ------------------------------------------------------------------ *)
+  Lemma crs_eq : up_crs r p q = map (fun k => (ck r (S k), rk r (S k))) (seq p (q - p)).
+  Proof.
+    unfold up_crs. apply map_ext_in. intros k Hk. apply in_seq in Hk. pose proof q_lt.
+    rewrite ck'_eq, rk'_eq by lia. rewrite sigma_mid by lia. reflexivity.
+  Qed.
+
+  Lemma Ut_off i j : j <> col_p -> Ut i j = Ucf r i j.
+  Proof. intros H. unfold up_Ut. destruct (Nat.eqb_spec j col_p); [contradiction|reflexivity]. Qed.
+  Lemma Ut_col i : Ut i col_p = coefAt s i.
+  Proof. unfold up_Ut. rewrite Nat.eqb_refl. reflexivity. Qed.
+  Lemma Ue_off i j : i <> row_p -> Ue i j = Ut i j.
+  Proof. intros H. unfold up_Ue. destruct (Nat.eqb_spec i row_p); [contradiction|reflexivity]. Qed.
+  Lemma Ue_row j : Ue row_p j = 0.
+  Proof. unfold up_Ue. rewrite Nat.eqb_refl. reflexivity. Qed.
+
+  Lemma rk_ne_row t : (t < n)%nat -> t <> p -> rk r t <> row_p.
+  Proof. intros Ht Hne E. apply Hne. apply (rk_inj r SF); [exact Ht|exact p_lt|exact E]. Qed.
+  Lemma ck_ne_col t : (t < n)%nat -> t <> p -> ck r t <> col_p.
+  Proof. intros Ht Hne E. apply Hne. apply (ck_inj r SF); [exact Ht|exact p_lt|]. rewrite ck_p. exact E. Qed.
+
+  (* the spike has no entry beyond rank q *)
+  Lemma spike_high t : (q < t)%nat -> (t < n)%nat -> coefAt s (rk r t) == 0.
+  Proof. intros H Ht. apply (spike_rank_zero (f_rperm r)). rewrite (rk_index r SF t Ht). exact H. Qed.
+
+  Lemma elimP_crs : forall len m done, (p <= m)%nat -> (m + len = q)%nat ->
+    (forall d, In d done -> exists t, (p <= t < m)%nat /\ d = ck r (S t)) ->
+    elimP Ue done (map (fun k => (ck r (S k), rk r (S k))) (seq m len)).
+  Proof.
+    pose proof q_lt as Hq.
+    induction len as [|len IH]; intros m done Hm Hl D; [exact I|].
+    cbn [seq map elimP fst snd]. split.
+    - intros d Hd. destruct (D d Hd) as (t & Ht & ->).
+      rewrite Ue_off by (apply rk_ne_row; lia). rewrite Ut_off by (apply ck_ne_col; lia).
+      apply (U_tri r SF); lia.
+    - apply IH; [lia|lia|]. intros d [<-|Hd]; [exists m; split; [lia|reflexivity]|].
+      destruct (D d Hd) as (t & Ht & ->). exists t. split; [lia|reflexivity].
+  Qed.
+
+  Lemma elim_facts :
+    (forall j, (j < n)%nat -> qnth w j + sumn n (fun i => coefAt eta i * Ue i j) == Ut row_p j) /\
+    (forall k, (p <= k < q)%nat -> qnth w (ck r (S k)) == 0) /\
+    (forall i, (forall k, (p <= k < q)%nat -> rk r (S k) <> i) -> coefAt eta i == 0) /\
+    ind_lt n eta = true.
+  Proof.
+    pose proof q_lt as Hq. unfold up_elim. rewrite crs_eq.
+    set (crs := map (fun k => (ck r (S k), rk r (S k))) (seq p (q - p))).
+    assert (W : forall cr, In cr crs -> (fst cr < n)%nat /\ (snd cr < n)%nat /\ ~ Ue (snd cr) (fst cr) == 0).
+    { intros cr H. apply in_map_iff in H. destruct H as (k & <- & Hk). apply in_seq in Hk. cbn [fst snd].
+      split; [apply ck_lt; [exact SF|lia]|]. split; [apply rk_lt; [exact SF|lia]|].
+      rewrite Ue_off by (apply rk_ne_row; lia). rewrite Ut_off by (apply ck_ne_col; lia). apply (U_piv r SF). lia. }
+    pose proof (elim_fold_spec n Ue crs [] (mkvec n (fun j => Ut row_p j)) [] W
+                  (elimP_crs (q - p) p [] (Nat.le_refl p) ltac:(lia) (fun d H => match H with end))
+                  (fun d H => match H with end) eq_refl) as S.
+    cbv zeta in S. destruct S as (R & Z & K & I1). split; [|split; [|split]].
+    - intros j Hj. rewrite (R j Hj). rewrite qnth_mkvec by exact Hj.
+      assert (E0 : sumn n (fun i => coefAt (@nil (nat * Q)) i * Ue i j) == 0) by (apply sumn_0; intros; simpl; ring).
+      rewrite E0. ring.
+    - intros k Hk. apply Z. right. apply in_map_iff. exists (ck r (S k), rk r (S k)). split; [reflexivity|].
+      apply in_map_iff. exists k. split; [reflexivity|]. apply in_seq. lia.
+    - intros i Hi. rewrite (K i); [reflexivity|]. intros cr H. apply in_map_iff in H. destruct H as (k & <- & Hk).
+      apply in_seq in Hk. cbn [snd]. apply Hi. lia.
+    - exact I1.
+  Qed.
+
+  (* multipliers sit on rows of old rank p+1 .. q only *)
+  Lemma eta_support i : (i < n)%nat -> ~ (p < index_of i (f_rperm r) <= q)%nat -> coefAt eta i == 0.
+  Proof.
+    intros Hi H. destruct elim_facts as (_ & _ & K & _). apply K. intros k Hk E. apply H.
+    rewrite <- E. rewrite (rk_index r SF) by (pose proof q_lt; lia). lia.
+  Qed.
+  Lemma eta_row_p : coefAt eta row_p == 0.
+  Proof. apply eta_support; [exact row_p_lt|]. rewrite (rk_index r SF p p_lt). lia. Qed.
+
+  (* the eliminated row vanishes on all columns of new rank < q *)
+  Lemma w_low k : (k < q)%nat -> qnth w (ck r (sg k)) == 0.
+  Proof.
+    intros Hk. pose proof q_lt as Hq. destruct elim_facts as (R & Z & _ & _).
+    destruct (Nat.lt_ge_cases k p) as [Hlo|Hhi].
+    - rewrite sigma_low by exact Hlo.
+      assert (Hj : (ck r k < n)%nat) by (apply ck_lt; [exact SF|lia]).
+      pose proof (R (ck r k) Hj) as E.
+      assert (E1 : Ut row_p (ck r k) == 0).
+      { rewrite Ut_off by (apply ck_ne_col; lia). apply (U_tri r SF); [exact Hlo|exact p_lt]. }
+      assert (E2 : sumn n (fun i => coefAt eta i * Ue i (ck r k)) == 0).
+      { apply sumn_0. intros i Hi.
+        destruct (rk_surj r SF i Hi) as [A B]. set (t := index_of i (f_rperm r)) in *.
+        destruct (Nat.lt_ge_cases p t) as [H1|H1].
+        - destruct (Nat.le_gt_cases t q) as [H2|H2].
+          + rewrite <- B. rewrite Ue_off by (apply rk_ne_row; lia). rewrite Ut_off by (apply ck_ne_col; lia).
+            rewrite (U_tri r SF k t) by lia. ring.
+          + rewrite (eta_support i Hi) by (fold t; lia). ring.
+        - rewrite (eta_support i Hi) by (fold t; lia). ring. }
+      rewrite E1, E2 in E. lra.
+    - rewrite sigma_mid by lia. apply Z. lia.
+  Qed.
+
+  (* ---- the new U ------------------------------------------------------------------------------------------- *)
+  Lemma U'_off i j : i <> row_p -> U' i j = Ut i j.
+  Proof. intros H. unfold up_U. destruct (Nat.eqb_spec i row_p); [contradiction|reflexivity]. Qed.
+
+  Lemma U'_row j : (j < n)%nat -> U' row_p j == qnth w j.
+  Proof.
+    intros Hj. unfold up_U. rewrite Nat.eqb_refl. destruct (col_rank' j Hj) as (k & Hk & ->).
+    rewrite ck'_index by exact Hk. destruct (Nat.leb_spec q k); [reflexivity|]. symmetry. apply w_low. lia.
+  Qed.
+
+  (* row row_p of the new U = row row_p of Ut minus the multiples of the rows used *)
+  Lemma U'_row_elim j : (j < n)%nat -> U' row_p j == Ut row_p j - sumn n (fun i => coefAt eta i * Ue i j).
+  Proof. intros Hj. rewrite (U'_row j Hj). destruct elim_facts as (R & _). rewrite <- (R j Hj). ring. Qed.
+
+  Hypothesis Hpiv : ~ qnth w col_p == 0.
+
+  Lemma U'_tri k t : (k < t)%nat -> (t < n)%nat -> U' (rk r (sg t)) (ck r (sg k)) == 0.
+  Proof.
+    intros Hkt Ht. pose proof q_lt as Hq.
+    destruct (Nat.eq_dec t q) as [->|Htq].
+    - rewrite sigma_q by exact Hpq. unfold up_U. rewrite Nat.eqb_refl. rewrite ck'_index by lia.
+      destruct (Nat.leb_spec q k); [lia|reflexivity].
+    - assert (Hr : rk r (sg t) <> row_p).
+      { apply rk_ne_row; [apply sg_lt; exact Ht|]. intros E. apply Htq. apply (sigma_eq_p p q); assumption. }
+      rewrite U'_off by exact Hr.
+      destruct (Nat.eq_dec k q) as [->|Hkq].
+      + rewrite sigma_q by exact Hpq. rewrite ck_p, Ut_col. rewrite sigma_high by lia. apply spike_high; lia.
+      + rewrite Ut_off.
+        * apply (U_tri r SF); [apply sigma_mono; assumption|apply sg_lt; exact Ht].
+        * apply ck_ne_col; [apply sg_lt; lia|]. intros E. apply Hkq. apply (sigma_eq_p p q); assumption.
+  Qed.
+
+  Lemma U'_piv k : (k < n)%nat -> ~ U' (rk r (sg k)) (ck r (sg k)) == 0.
+  Proof.
+    intros Hk. destruct (Nat.eq_dec k q) as [->|Hkq].
+    - rewrite sigma_q by exact Hpq. rewrite ck_p. rewrite (U'_row col_p Hcol). exact Hpiv.
+    - assert (Hne : sg k <> p) by (intros E; apply Hkq; apply (sigma_eq_p p q); assumption).
+      rewrite U'_off by (apply rk_ne_row; [apply sg_lt; exact Hk|exact Hne]).
+      rewrite Ut_off by (apply ck_ne_col; [apply sg_lt; exact Hk|exact Hne]).
+      apply (U_piv r SF). apply sg_lt. exact Hk.
+  Qed.
+
+  (* ---- the new representation is well formed ----------------------------------------------------------------- *)
+  Lemma nth_map_seq {A} (F : nat -> A) (d : A) m j : (j < m)%nat -> nth j (map F (seq 0 m)) d = F j.
+  Proof.
+    intros H. rewrite (nth_indep _ d (F m)) by (rewrite map_length, seq_length; exact H).
+    rewrite (map_nth F (seq 0 m) m j). rewrite seq_nth by exact H. reflexivity.
+  Qed.
+
+  Lemma rk_r' k : rk r' k = nth k (shift (f_rperm r) p q) 0%nat. Proof. reflexivity. Qed.
+  Lemma ck_r' k : ck r' k = nth k (shift (f_cperm r) p q) 0%nat. Proof. reflexivity. Qed.
+
+  Lemma uc'_nth k : (k < n)%nat ->
+    nth (ck r (sg k)) (f_uc r') [] = tab_line n (rk r (sg k)) (fun i => U' i (ck r (sg k))).
+  Proof.
+    intros Hk. unfold up_repr. cbn [f_uc].
+    rewrite nth_map_seq by (apply ck_lt; [exact SF|apply sg_lt; exact Hk]).
+    rewrite ck'_index by exact Hk. rewrite rk'_eq by exact Hk. reflexivity.
+  Qed.
+  Lemma ur'_nth k : (k < n)%nat ->
+    nth (rk r (sg k)) (f_ur r') [] = tab_line n (ck r (sg k)) (fun j => U' (rk r (sg k)) j).
+  Proof.
+    intros Hk. unfold up_repr. cbn [f_ur].
+    rewrite nth_map_seq by (apply rk_lt; [exact SF|apply sg_lt; exact Hk]).
+    rewrite rk'_index by exact Hk. rewrite ck'_eq by exact Hk. reflexivity.
+  Qed.
+
+  Lemma Ucf'_eq i j : (i < n)%nat -> (j < n)%nat -> Ucf r' i j == U' i j.
+  Proof.
+    intros Hi Hj. destruct (col_rank' j Hj) as (k & Hk & ->). unfold Ucf. rewrite uc'_nth by exact Hk.
+    apply (coefAt_tab_line n (rk r (sg k)) (fun i0 => U' i0 (ck r (sg k))) i Hi).
+  Qed.
+  Lemma Urf'_eq i j : (i < n)%nat -> (j < n)%nat -> Urf r' i j == U' i j.
+  Proof.
+    intros Hi Hj. destruct (row_rank' i Hi) as (k & Hk & ->). unfold Urf. rewrite ur'_nth by exact Hk.
+    apply (coefAt_tab_line n (ck r (sg k)) (fun j => U' (rk r (sg k)) j)). exact Hj.
+  Qed.
+
+  Lemma perm'_lt (l : list nat) : length l = n -> forallb (fun i => Nat.ltb i n) l = true ->
+    forallb (fun i => Nat.ltb i n) (shift l p q) = true.
+  Proof.
+    intros L W. rewrite forallb_forall in W. apply forallb_forall. intros x Hx.
+    destruct (In_nth _ _ 0%nat Hx) as (k & Hk & <-). rewrite shift_length in Hk. rewrite shift_nth by exact Hk.
+    apply W. apply nth_In. rewrite L. apply sg_lt. lia.
+  Qed.
+
+  Lemma wf_r' : wf_repr r' = true.
+  Proof.
+    destruct (wf_parts r SF) as (W1 & W2 & W3 & W4 & W5 & W6 & W7).
+    destruct elim_facts as (_ & _ & _ & I1).
+    unfold wf_repr, up_repr. cbn [f_dim f_lc f_lr f_er f_uc f_ur f_rperm f_cperm].
+    rewrite W1, W2. cbn [andb].
+    assert (E : forallb (wf_eta n) (match eta with [] => f_er r | _ :: _ => f_er r ++ [(row_p, eta)] end) = true).
+    { destruct (snd (up_elim r col_p s row_p p q)) eqn:Ee; [exact W3|].
+      rewrite forallb_app, W3. cbn [forallb andb]. rewrite andb_true_r. unfold wf_eta. cbn [fst snd].
+      rewrite I1, andb_true_r. apply Nat.ltb_lt. exact row_p_lt. }
+    rewrite E. cbn [andb].
+    assert (EC : forallb (ind_lt n) (map (fun j => tab_line n (nth (index_of j (shift (f_cperm r) p q)) (shift (f_rperm r) p q) 0%nat)
+                                                    (fun i => U' i j)) (seq 0 n)) = true).
+    { apply forallb_forall. intros l Hl. apply in_map_iff in Hl. destruct Hl as (j & <- & Hj). apply in_seq in Hj.
+      apply ind_lt_tab_line. destruct (col_rank' j ltac:(lia)) as (k & Hk & ->).
+      rewrite ck'_index, rk'_eq by exact Hk. apply rk_lt; [exact SF|apply sg_lt; exact Hk]. }
+    assert (ER : forallb (ind_lt n) (map (fun i => tab_line n (nth (index_of i (shift (f_rperm r) p q)) (shift (f_cperm r) p q) 0%nat)
+                                                    (fun j => U' i j)) (seq 0 n)) = true).
+    { apply forallb_forall. intros l Hl. apply in_map_iff in Hl. destruct Hl as (i & <- & Hi). apply in_seq in Hi.
+      apply ind_lt_tab_line. destruct (row_rank' i ltac:(lia)) as (k & Hk & ->).
+      rewrite rk'_index, ck'_eq by exact Hk. apply ck_lt; [exact SF|apply sg_lt; exact Hk]. }
+    rewrite EC, ER. cbn [andb].
+    rewrite (perm'_lt _ (sf_rlen r SF) W6), (perm'_lt _ (sf_clen r SF) W7). reflexivity.
+  Qed.
+
+  Theorem sfacts_r' : sfacts r'.
+  Proof.
+    destruct (perm_ok_spec n _ rperm'_ok) as (RL & RC & _). destruct (perm_ok_spec n _ cperm'_ok) as (CL & CC & _).
+    constructor; try assumption.
+    - exact wf_r'.
+    - intros k Hk. change (f_dim r') with n in Hk. unfold line_ok. rewrite rk_r', ck_r', rk'_eq, ck'_eq by exact Hk.
+      rewrite uc'_nth by exact Hk. unfold tab_line. eexists. eexists. split; [reflexivity|]. split.
+      + rewrite Qred_correct. apply U'_piv. exact Hk.
+      + intros t Ht. change (f_dim r') with n in Ht. rewrite rk_r', rk'_eq by lia.
+        rewrite tab_rest_coef by (apply rk_lt; [exact SF|apply sg_lt; lia]).
+        destruct (Nat.eqb (rk r (sg t)) (rk r (sg k))) eqn:E; [reflexivity|].
+        destruct (Nat.eq_dec t k) as [->|Hne]; [rewrite Nat.eqb_refl in E; discriminate|].
+        apply U'_tri; lia.
+    - intros k Hk. change (f_dim r') with n in Hk. unfold line_ok. rewrite rk_r', ck_r', rk'_eq, ck'_eq by exact Hk.
+      rewrite ur'_nth by exact Hk. unfold tab_line. eexists. eexists. split; [reflexivity|]. split.
+      + rewrite Qred_correct. apply U'_piv. exact Hk.
+      + intros t Ht. rewrite ck_r', ck'_eq by lia.
+        rewrite (tab_rest_coef n (ck r (sg k)) (fun j => U' (rk r (sg k)) j)) by (apply ck_lt; [exact SF|apply sg_lt; lia]).
+        destruct (Nat.eqb (ck r (sg t)) (ck r (sg k))) eqn:E; [reflexivity|].
+        destruct (Nat.eq_dec t k) as [->|Hne]; [rewrite Nat.eqb_refl in E; discriminate|].
+        apply U'_tri; lia.
+    - intros i j Hi Hj. change (f_dim r') with n in Hi, Hj. rewrite Ucf'_eq, Urf'_eq by assumption. reflexivity.
+  Qed.
+End Update.
+
+(* ================================================================================================= the update keeps the factorization *)
+Section UpdateRep.
+  Variable r : repr.
+  Variable col_p : nat.
+  Variable s : sparse.
+  Hypothesis SF : sfacts r.
+  Local Notation n := (f_dim r).
+  Hypothesis Hcol : (col_p < n)%nat.
+  Hypothesis Hs : ind_lt n s = true.
+  Local Notation p := (index_of col_p (f_cperm r)).
+  Local Notation q := (spike_rank (f_rperm r) s).
+  Local Notation row_p := (rk r p).
+  Hypothesis Hpq : (p <= q)%nat.
+  Local Notation Ut := (up_Ut r col_p s).
+  Local Notation Ue := (up_Ue r col_p s row_p).
+  Local Notation w := (fst (up_elim r col_p s row_p p q)).
+  Local Notation eta := (snd (up_elim r col_p s row_p p q)).
+  Local Notation U' := (up_U r col_p s row_p p q).
+  Local Notation r' := (up_repr r col_p s row_p p q).
+
+  (* the row operation of the new eta on a vector g *)
+  Definition Rv (g : nat -> Q) (i : nat) : Q :=
+    if Nat.eqb i row_p then g row_p - sumn n (fun l => coefAt eta l * g l) else g i.
+
+  Lemma spike'_spec a i : (i < n)%nat -> qnth (spike r' a) i == Rv (qnth (spike r a)) i.
+  Proof.
+    intros Hi. destruct (elim_facts r col_p s SF Hcol Hs Hpq) as (_ & _ & _ & I1).
+    unfold spike, up_repr, Rv. cbn [f_dim f_lc f_er].
+    set (g := fold_left (dot_step n) (f_er r) (fold_left (axpy_step n) (f_lc r) (mkvec n (qnth a)))).
+    destruct (snd (up_elim r col_p s row_p p q)) as [|e t] eqn:Ee.
+    - fold g. destruct (Nat.eqb_spec i row_p) as [->|_]; [|reflexivity].
+      assert (E0 : sumn n (fun l => coefAt (@nil (nat * Q)) l * qnth g l) == 0) by (apply sumn_0; intros; simpl; ring).
+      rewrite E0. ring.
+    - rewrite fold_left_app. fold g. cbn [fold_left]. rewrite dot_step_spec by assumption. reflexivity.
+  Qed.
+
+  Definition Rt (w0 : vec) : vec := mkvec n (fun i => qnth w0 i - qnth w0 row_p * coefAt eta i).
+
+  Lemma bpost'_spec w0 l : (l < n)%nat -> qnth (bpost r' w0) l == qnth (bpost r (Rt w0)) l.
+  Proof.
+    intros Hl. unfold bpost at 1. unfold up_repr, Rt. cbn [f_dim f_lr f_er].
+    destruct (snd (up_elim r col_p s row_p p q)) as [|e t] eqn:Ee.
+    - apply (vlin_ext n (bpost r) (bpost_lin r SF)); [|exact Hl]. intros i Hi. rewrite qnth_mkvec by exact Hi.
+      simpl. ring.
+    - rewrite rev_app_distr. cbn [rev app fold_left].
+      change (fold_left (axpy_step n) (rev (f_lr r)) (fold_left (axpy_step n) (rev (f_er r)) (axpy_step n w0 (row_p, e :: t))))
+        with (bpost r (axpy_step n w0 (row_p, e :: t))).
+      apply (vlin_ext n (bpost r) (bpost_lin r SF)); [|exact Hl]. intros i Hi.
+      rewrite axpy_step_spec by exact Hi. rewrite qnth_mkvec by exact Hi. reflexivity.
+  Qed.
+
+  Hypothesis Hpiv : ~ qnth w col_p == 0.
+  Variable B : mat.
+  Variable a : vec.
+  Hypothesis Hsp : forall i, (i < n)%nat -> coefAt s i == qnth (spike r a) i.
+  Hypothesis F : frep_r r B.
+
+  Lemma Rv_col j i : (i < n)%nat -> (j < n)%nat -> Rv (fun l => Ut l j) i == U' i j.
+  Proof.
+    intros Hi Hj. unfold Rv. destruct (Nat.eqb_spec i row_p) as [->|NE].
+    - rewrite (U'_row_elim r col_p s SF Hcol Hs Hpq j Hj). apply Qplus_comp; [reflexivity|]. apply Qopp_comp.
+      apply sumn_ext. intros l Hl. destruct (Nat.eq_dec l row_p) as [->|Hne].
+      + rewrite (eta_row_p r col_p s SF Hcol Hs Hpq). ring.
+      + rewrite (Ue_off r col_p s) by exact Hne. reflexivity.
+    - rewrite (U'_off r col_p s) by exact NE. reflexivity.
+  Qed.
+
+  Theorem update_frep : frep_r r' (replace_col n B col_p a).
+  Proof.
+    destruct F as (FA & FI & FC). pose proof (spike_lin r SF) as GL.
+    pose proof (sfacts_r' r col_p s SF Hcol Hs Hpq Hpiv) as SF'.
+    unfold frep_r, frep. change (f_dim r') with n. split; [|split].
+    - intros i j Hi Hj. rewrite (Ucf'_eq r col_p s SF Hcol Hs Hpq i j Hi Hj). rewrite spike'_spec by exact Hi.
+      rewrite <- (Rv_col j i Hi Hj). unfold Rv.
+      assert (E : forall l, (l < n)%nat -> qnth (spike r (bcol n (replace_col n B col_p a) j)) l == Ut l j).
+      { intros l Hl. unfold up_Ut. destruct (Nat.eqb_spec j col_p) as [->|NE].
+        - rewrite (Hsp l Hl). apply (vlin_ext n (spike r) GL); [|exact Hl]. intros i0 Hi0.
+          unfold bcol, replace_col. rewrite qnth_mkvec by exact Hi0. rewrite mget_mkmat by assumption.
+          rewrite Nat.eqb_refl. reflexivity.
+        - rewrite <- (FA l j Hl Hj). apply (vlin_ext n (spike r) GL); [|exact Hl]. intros i0 Hi0.
+          unfold bcol, replace_col. rewrite !qnth_mkvec by exact Hi0. rewrite mget_mkmat by assumption.
+          destruct (Nat.eqb_spec j col_p); [contradiction|reflexivity]. }
+      destruct (Nat.eqb i row_p).
+      + rewrite (E (rk r p)) by (apply rk_lt; [exact SF|apply (p_lt r col_p SF Hcol)]).
+        apply Qplus_comp; [reflexivity|]. apply Qopp_comp. apply sumn_ext. intros l Hl. rewrite (E l Hl). reflexivity.
+      + apply E. exact Hi.
+    - intros v Z. apply FI. intros i Hi.
+      assert (Zo : forall l, (l < n)%nat -> l <> row_p -> qnth (spike r v) l == 0).
+      { intros l Hl Hne. rewrite <- (Z l Hl). rewrite spike'_spec by exact Hl. unfold Rv.
+        destruct (Nat.eqb_spec l row_p); [contradiction|reflexivity]. }
+      destruct (Nat.eq_dec i row_p) as [->|Hne]; [|apply Zo; assumption].
+      pose proof (Z (rk r p) Hi) as Zp. rewrite spike'_spec in Zp by exact Hi. unfold Rv in Zp. rewrite Nat.eqb_refl in Zp.
+      assert (E0 : sumn n (fun l => coefAt eta l * qnth (spike r v) l) == 0).
+      { apply sumn_0. intros l Hl. destruct (Nat.eq_dec l row_p) as [->|Hne].
+        - rewrite (eta_row_p r col_p s SF Hcol Hs Hpq). ring.
+        - rewrite (Zo l Hl Hne). ring. }
+      rewrite E0 in Zp. lra.
+    - intros w0 a'.
+      transitivity (sumn n (fun l => qnth (bpost r (Rt w0)) l * qnth a' l)).
+      { apply sumn_ext. intros l Hl. rewrite bpost'_spec by exact Hl. reflexivity. }
+      rewrite (FC (Rt w0) a').
+      set (g := qnth (spike r a')). set (S := sumn n (fun l => coefAt eta l * g l)).
+      transitivity (sumn n (fun i => qnth w0 i * g i) - qnth w0 row_p * S).
+      + transitivity (sumn n (fun i => qnth w0 i * g i - qnth w0 row_p * (coefAt eta i * g i))).
+        * apply sumn_ext. intros i Hi. unfold Rt. rewrite qnth_mkvec by exact Hi. ring.
+        * rewrite sumn_sub. rewrite sumn_scale. reflexivity.
+      + transitivity (sumn n (fun i => qnth w0 i * g i - (qnth w0 i * S) * (if Nat.eqb i row_p then 1 else 0))).
+        * rewrite sumn_sub. rewrite (sumn_delta_r n row_p (fun i => qnth w0 i * S)) by (apply rk_lt; [exact SF|apply (p_lt r col_p SF Hcol)]).
+          reflexivity.
+        * apply sumn_ext. intros i Hi. rewrite spike'_spec by exact Hi. unfold Rv. fold g. fold S.
+          destruct (Nat.eqb i row_p) eqn:E; [apply Nat.eqb_eq in E; rewrite E|]; ring.
+  Qed.
+End UpdateRep.
